@@ -405,6 +405,95 @@ func derivesFromAnalyser(w *World, v ssa.Value, analysers map[*ssa.Function]bool
 	return false
 }
 
+// unitBinding: a call binding, at decision level 1, a literal that comes from a conflict analyser. The call sits in
+// the search loop itself (holder == loopFn, site == call) or in a helper of the loop that is handed the literal
+// (`if !s.learnUnit(unit) { return s.setUnsat() }`): then lit is the helper's parameter and site the helper's call.
+type unitBinding struct {
+	holder *ssa.Function
+	call   *ssa.Call
+	lit    ssa.Value
+	loopFn *ssa.Function
+	site   *ssa.Call
+}
+
+func learnedUnitBindings(w *World, an map[*ssa.Function]bool) []unitBinding {
+	callsAn := func(fn *ssa.Function) bool {
+		for _, ci := range callsIn(fn) {
+			for _, c := range w.Callees[ci] {
+				if an[c] {
+					return true
+				}
+			}
+		}
+		return false
+	}
+	level1Bindings := func(fn *ssa.Function) (calls []*ssa.Call, lits []ssa.Value) {
+		for _, ci := range callsIn(fn) {
+			call, ok := ci.(*ssa.Call)
+			if !ok || len(w.Callees[call]) == 0 {
+				continue
+			}
+			var lit ssa.Value
+			lvl1 := false
+			for _, a := range call.Call.Args {
+				if typeShort(a.Type()) == "solver.Lit" {
+					lit = a
+				}
+				if typeShort(a.Type()) == "solver.decLevel" {
+					if v, ok := constInt(a); ok && v == 1 {
+						lvl1 = true
+					}
+				}
+			}
+			if lit != nil && lvl1 {
+				calls, lits = append(calls, call), append(lits, lit)
+			}
+		}
+		return
+	}
+	var out []unitBinding
+	for _, fn := range w.Fns {
+		if w.PkgName(fn) != "solver" || !callsAn(fn) {
+			continue
+		}
+		calls, lits := level1Bindings(fn)
+		for i, call := range calls {
+			if derivesFromAnalyser(w, lits[i], an, 0) {
+				out = append(out, unitBinding{fn, call, lits[i], fn, call})
+			}
+		}
+		// helpers handed a literal of the analyser
+		for _, ci := range callsIn(fn) {
+			site, ok := ci.(*ssa.Call)
+			h := ci.Common().StaticCallee()
+			if !ok || h == nil || w.PkgName(h) != "solver" || h == fn || an[h] || callsAn(h) || len(h.Blocks) == 0 {
+				continue
+			}
+			isBinding := false
+			for _, c := range calls {
+				if c == site {
+					isBinding = true // the binding function itself, not a helper around it
+				}
+			}
+			if isBinding {
+				continue
+			}
+			hcalls, hlits := level1Bindings(h)
+			for i, hc := range hcalls {
+				pi := paramIndex(h, hlits[i])
+				if pi < 0 || pi >= len(site.Call.Args) || !derivesFromAnalyser(w, site.Call.Args[pi], an, 0) {
+					continue
+				}
+				if typeShort(hc.Type()) != "*solver.Clause" {
+					continue // a helper is recognised by the binding proper (the call that may answer a conflict)
+				}
+				out = append(out, unitBinding{h, hc, hlits[i], fn, site})
+			}
+		}
+	}
+	return out
+}
+
 // R6.2
 func ruleR6_2(w *World, r *Report) {
 	r.Rule("R6.2", "in the functions that call a conflict analyser, a literal taken from its result is bound at decision level 1 only after the call that writes it to the certificate", 2)
@@ -420,64 +509,27 @@ func ruleR6_2(w *World, r *Report) {
 		r.Unk("R6.2", "anchors", "-", fmt.Sprintf("conflict analysers found: %d, unit emitters found: %d", len(an), len(em)))
 		return
 	}
-	for _, fn := range w.Fns {
-		if w.PkgName(fn) != "solver" {
-			continue
-		}
-		callsAnalyser := false
-		for _, ci := range callsIn(fn) {
-			for _, c := range w.Callees[ci] {
-				if an[c] {
-					callsAnalyser = true
-				}
-			}
-		}
-		if !callsAnalyser {
-			continue
-		}
-		n := 0
-		for _, ci := range callsIn(fn) {
-			call, ok := ci.(*ssa.Call)
-			if !ok || len(w.Callees[call]) == 0 {
+	perFn := map[*ssa.Function]int{}
+	for _, ub := range learnedUnitBindings(w, an) {
+		perFn[ub.loopFn]++
+		key := fmt.Sprintf("%s top-level binding #%d of a learned literal", w.FuncName(ub.loopFn), perFn[ub.loopFn])
+		emitted := false
+		for _, cj := range callsIn(ub.holder) {
+			c2, ok := cj.(*ssa.Call)
+			if !ok {
 				continue
 			}
-			// a call f(..., X Lit, 1 decLevel)
-			var lit ssa.Value
-			lvl1 := false
-			for _, a := range call.Call.Args {
-				if typeShort(a.Type()) == "solver.Lit" {
-					lit = a
-				}
-				if typeShort(a.Type()) == "solver.decLevel" {
-					if v, ok := constInt(a); ok && v == 1 {
-						lvl1 = true
-					}
-				}
-			}
-			if lit == nil || !lvl1 || !derivesFromAnalyser(w, lit, an, 0) {
-				continue
-			}
-			// binding calls only: the callee must write the model (transitively)
-			n++
-			key := fmt.Sprintf("%s top-level binding #%d of a learned literal", w.FuncName(fn), n)
-			emitted := false
-			for _, cj := range callsIn(fn) {
-				c2, ok := cj.(*ssa.Call)
-				if !ok {
-					continue
-				}
-				for _, cal := range w.Callees[c2] {
-					if em[cal] {
-						for _, a := range c2.Call.Args {
-							if a == lit && instrDominates(c2, call) {
-								emitted = true
-							}
+			for _, cal := range w.Callees[c2] {
+				if em[cal] {
+					for _, a := range c2.Call.Args {
+						if a == ub.lit && instrDominates(c2, ub.call) {
+							emitted = true
 						}
 					}
 				}
 			}
-			r.Check(emitted, "R6.2", key, w.InstrPos(call), "the literal is written to the certificate before it is bound", "a literal learned by conflict analysis is bound at the top level without having been written to the certificate: the refutation has a gap")
 		}
+		r.Check(emitted, "R6.2", key, w.InstrPos(ub.call), "the literal is written to the certificate before it is bound", "a literal learned by conflict analysis is bound at the top level without having been written to the certificate: the refutation has a gap")
 	}
 }
 
